@@ -773,18 +773,29 @@ func runSeq(t *testing.T, res *common.Result, prop string, label string, mixed b
 		if out.found {
 			return
 		}
-		// end of sequence: same holds; then end every session on both sides: nothing may be left
+		// end of sequence: same holds; then end every session on both sides: nothing may be left. A REST
+		// session ends by DELETE or - every other sequence - by being abandoned for longer than the session
+		// timeout: "a REST session playing the role of a connection" ends like a connection either way
+		abandon := len(tr)%2 == 0
 		for _, s := range st.open {
 			ref.grpcEnd(refConn[s])
-			ck := cookie[s]
-			tst.do("DELETE", "/session", &ck, "")
+			if !abandon {
+				ck := cookie[s]
+				tst.do("DELETE", "/session", &ck, "")
+			}
 			if mixed {
 				tst.grpcEnd(tstConn[s])
 			}
 		}
+		how := "ending every session"
+		if abandon {
+			how = "ending every gRPC connection and leaving every REST session idle for the session timeout (10 min) + 1 s"
+			res.Count("sequence-end:rest-sessions-abandoned")
+			time.Sleep(10*time.Minute + time.Second)
+		}
 		synctest.Wait()
 		if a, b := strings.Join(locksCanon(ref.ls, false), ","), strings.Join(locksCanon(tst.ls, false), ","); a != b {
-			find("rest:equiv:final-state-differs", fmt.Sprintf("after ending every session the hold listings differ: reference [%s], %s side [%s]", a, mode, b))
+			find("rest:equiv:final-state-differs", fmt.Sprintf("after %s the hold listings differ: reference [%s], %s side [%s]", how, a, mode, b))
 		}
 	})
 	return out
